@@ -183,6 +183,7 @@ class RealSim(simrun.Sim):
         if faults:
             env["VERIF_FAULTS"] = ",".join(faults)
         env.update(self.extra_env)
+        log_before = self.read_log()       # what the log held before this invocation (exact, unlike the model's timestamps)
         k = req.get('k', 1)
         jflag = [] if getattr(self, 'omit_j', False) else ["-j", str(req.get('j', 1))]    # an explicit -j disables the jobserver client
         cmd = [self.ninja] + jflag + ["-k", str(k if k > 0 else 0)] + self.extra_args + list(req['targets'])
@@ -239,7 +240,8 @@ class RealSim(simrun.Sim):
                 trace.append(dict(ev='finish', seq=i, t=e['t'], edge=e['edge'], status=e['status'], wrote=e['wrote']))
         files, dirs = self.scan_dir()
         res = dict(phase='uptodate' if "ninja: no work to do." in out else 'build', status=p.returncode, err=out, trace=trace, files=files, dirs=dirs, now=0,
-                   warnings=[], crashed=False, log=self.read_log(), deps=self.read_deps(), stdout=p.stdout.decode("utf-8", "replace"))
+                   warnings=[], crashed=False, log=self.read_log(), deps=self.read_deps(), stdout=p.stdout.decode("utf-8", "replace"),
+                   log_before=log_before)
         return res
 
     def manifest_graph(self, req):
